@@ -412,6 +412,12 @@ func allProbes() []classProbe {
 	ps = append(ps, probesFor[[8]bool]("[8]bool")...)
 	ps = append(ps, probesFor[[9]bool]("[9]bool")...)
 	ps = append(ps, probesFor[[10]bool]("[10]bool")...)
+	// interface-typed parameters (their zero value is nil, whatever the interface)
+	ps = append(ps, probesFor[any]("any")...)
+	ps = append(ps, probesFor[fmt.Stringer]("fmt.Stringer")...)
+	ps = append(ps, probesFor[error]("error")...)
+	ps = append(ps, probesFor[col.ListLike[int]]("ListLike[int]")...)
+	ps = append(ps, probesFor[interface{ M17() }]("interface{M17()}")...)
 	return ps
 }
 
